@@ -985,6 +985,11 @@ _c10()
 
 # ----------------------------------------------------------------------------------------------- C19
 def _c19():
+    R("c19-links-filed-under-child", D, '''    for e in iter(sys._g.edge_indices()):
+        ep = sys._g.get_edge_endpoints_by_index(e)
+        graph.add_edge(pydot.Edge(p[ep[0]], p[ep[1]], **bd_conf["edge"]))''', '''    links = {p[c]: p[par] for par, c in sys._g.edge_list()}
+    for child, parent in links.items():
+        graph.add_edge(pydot.Edge(parent, child, **bd_conf["edge"]))''', fires=["C19"], note="a mux with several inputs keeps one incoming edge")
     R("c19-flat-condition-and", D, '        if sys._g.attrs["groups"][n] == "" or not group:', '        if sys._g.attrs["groups"][n] == "" and not group:', fires=["C19"])
     R("c19-cluster-loop-over-groups-registry", D, '''            for n in sys._g.attrs["nodes"]:
                 if sys._g.attrs["groups"][n] == g:
